@@ -346,6 +346,10 @@ def c11(tier):
     for f in known.values():
         if f["id"] not in ck.known_hits and not ck.violations:
             raise Inconclusive("known finding %s did not reproduce: remove it from known_findings.json" % f["id"])
+    # the document in force changes while the server runs (Config.Set, configuration file, watched OPL file): a check must use
+    # the relations of the document now in force, as a server started with it does
+    import p_reconf
+    p_reconf.reconf(ck, binary, tier, "C11")
     ck.extra["programs"] = len(progs)
     ck.extra["acceptance_model_drift"] = drift
     ck.extra["mutants_of_programs_the_parser_does_not_accept"] = outside
